@@ -972,6 +972,7 @@ def check_C03(ctx):
     import runner
 
     ctx.stream("names", 150, 600)
+    check_e2e(ctx, "C03")
     h, leaves, names = _hier()
     cases, meta = [], []
     kinds = [("rec", "r()", "r()"), ("int", "k(6)", "k(3)"), ("mixed", "r()", "k(2)"), ("bool", "k(True)", "k(False)")]
@@ -1216,13 +1217,168 @@ def _c06_class(src, loc, hk, kind):
     return "%s:%s" % (kind, hk)
 
 
+# =============================================================================================== end-to-end three-way (C01 C03 C04 C05 C07)
+E2E_BITS = {"C01": 8, "C03": 64, "C04": 128, "C05": 256, "C07": 32}
+OVERRIDABLE = ["integer", "boolean", "string", "add", "subtract", "multiply", "less_than", "equal", "read_identifier", "read_attribute", "read_subscript",
+               "write", "post_call", "enter_if", "enter_while", "_return", "_assert", "_break", "_continue", "literal", "binary_operation", "comparison", "function_exit"]
+
+
+def e2e_cases(ctx, pid, n):
+    import genprog
+
+    h, leaves, names = _hier()
+    rng = random.Random("e2e-%s-%d" % (pid, ctx.seed))
+    cand = [x for x in leaves if x not in EXEC_LEVEL]
+    fam = {}
+
+    def lv(d, acc):
+        for k_, v_ in d.items():
+            if v_:
+                lv(v_, acc)
+            else:
+                acc.append(k_)
+
+    def walk(d):
+        for k_, v_ in d.items():
+            if v_:
+                a = []
+                lv(v_, a)
+                fam[k_] = sorted(set(a) - set(EXEC_LEVEL))
+                walk(v_)
+
+    walk(h)
+    cases, rcases = [], []
+    for i in range(n):
+        prog = genprog.gen_program(rng)
+        mode = rng.choice(["all", "all", "family", "subset", "single"])
+        if mode == "all":
+            hooks = cand
+        elif mode == "family":
+            hooks = fam[rng.choice(sorted(fam))]
+        elif mode == "single":
+            hooks = [rng.choice(cand)]
+        else:
+            hooks = rng.sample(cand, rng.randrange(2, 15))
+        ans = [{"cls": "A0", "hooks": {x: None for x in hooks}}]
+        if pid == "C07":
+            # one-shot overriding analysis: at occurrence k of hook h return v
+            hk = rng.choice([x for x in OVERRIDABLE])
+            k = rng.randrange(0, 3)
+            val = rng.choice([True, False]) if hk in ("enter_if", "enter_while", "_assert", "_break", "_continue", "boolean") else rng.choice([0, 1, 5, 7])
+            if hk == "string":
+                val = "zz"
+            ans = [{"cls": "A0", "hooks": {x: None for x in set(hooks) | {hk}}, "script": {hk: [None] * k + [val]}}]
+        elif rng.random() < 0.3:
+            extra = rng.sample(cand, rng.randrange(1, 6))
+            ans.append({"cls": "A1", "hooks": {x: None for x in extra}})
+        c = {"prog": prog, "analyses": ans, "coverage": False, "mode": mode}
+        cases.append(c)
+        rcases.append({"id": "%s/%d" % (pid, i), "files": {"main.py": prog["source"]}, "analyses": ans})
+    return cases, rcases
+
+
+def check_e2e(ctx, pid):
+    import runner
+    import e2e
+
+    n = 60 if ctx.quick else 1200
+    bit = E2E_BITS[pid]
+    done = 0
+    shard = 0
+    st = ctx.streams.setdefault("e2e_three_way", {"cases": 0, "disagreements": 0, "dist": {"agree": 0, "known_deviation": 0, "outside_model": 0, "hook_modes": {}}})
+    while done < n:
+        m = min(100, n - done)
+        ctx.seed_shift = shard
+        cases, rcases = e2e_cases(_Shift(ctx, shard), pid, m)
+        res = runner.run_cases(rcases)
+        metas, err = e2e.three_way(ctx.work, cases, res, "%s_%d" % (pid, shard))
+        shard += 1
+        done += m
+        if err:
+            ctx.broken.append("three-way comparison could not be evaluated: " + err[-400:])
+            continue
+        for c, rc, meta in zip(cases, rcases, metas):
+            st["cases"] += 1
+            st["dist"]["hook_modes"][c["mode"]] = st["dist"]["hook_modes"].get(c["mode"], 0) + 1
+            if meta.get("skip"):
+                ctx.broken.append("harness problem in %s: %s" % (rc["id"], meta["skip"][:300]))
+                continue
+            code = meta.get("code", -1)
+            ctx.count(1, [c["prog"]["source"] + json.dumps(c["analyses"], sort_keys=True)],
+                      [{"program": c["prog"]["source"], "hooks": c["mode"], "analyses": [(a["cls"], len(a["hooks"]), a.get("script")) for a in c["analyses"]], "verdict_bits": code, "failing_guard_clauses": meta.get("clauses")}])
+            ctx.impl_traces += 2
+            if code < 0:
+                ctx.broken.append("no verdict for case %s" % rc["id"])
+                continue
+            if code & 16:
+                st["dist"]["outside_model"] += 1
+                # outside the model's data semantics: only the implementation-side transparency oracle applies
+                if pid == "C01" and code & 8 and not meta.get("clauses"):
+                    ctx.violation("C01:transparency", "instrumented run differs from the original run (case outside the Coq model's data semantics)", {"case": rc})
+                continue
+            if code & 3:
+                st["disagreements"] += 1
+                which = ("original program: MiniPy semantics vs CPython" if code & 1 else "") + (" instrumented program: model of instrumenter+runtime vs DynaPyt" if code & 2 else "")
+                ctx.broken.append("model/implementation disagree (%s) on case %s seed %d: %s" % (which.strip(), rc["id"], ctx.seed, rc["files"]["main.py"][:300].replace("\n", " | ")))
+                continue
+            if code & bit:
+                cl = meta.get("clauses") or []
+                if cl:
+                    st["dist"]["known_deviation"] += 1
+                    for x in cl:
+                        ctx.violation("%s:%s" % (pid, x), "%s: the implementation deviates from the reference semantics on a program with the known situation %r (verdict bits %d)" % (pid, cl, code), {"case": rc, "clauses": cl, "bits": code})
+                else:
+                    ctx.violation("%s:deviation" % pid, "the implementation deviates from the reference semantics with no known cause (verdict bits %d): %s" % (code, rc["files"]["main.py"][:400].replace("\n", " | ")), {"case": rc, "bits": code})
+            else:
+                st["dist"]["agree"] += 1
+
+
+class _Shift:
+    """a view of the context with a shifted seed (one per shard)"""
+
+    def __init__(self, ctx, k):
+        self.seed = ctx.seed * 1000 + k
+
+
+def prove_C01(ctx):
+    ctx.prove(["Properties/C01.v"])
+
+
+def check_C01(ctx):
+    check_e2e(ctx, "C01")
+
+
+def prove_C04(ctx):
+    ctx.prove(["Properties/C04.v"])
+
+
+def check_C04(ctx):
+    check_e2e(ctx, "C04")
+
+
+def prove_C05(ctx):
+    ctx.prove(["Properties/C05.v"])
+
+
+def check_C05(ctx):
+    check_e2e(ctx, "C05")
+
+
+def prove_C07(ctx):
+    ctx.prove(["Properties/C07.v"])
+
+
+def check_C07(ctx):
+    check_e2e(ctx, "C07")
+
+
 # =============================================================================================== registry
 def _todo(ctx):
     pass
 
 
-PROVE = {"C03": prove_C03, "C06": prove_C06, "C08": prove_C08, "C15": prove_C15, "C02": prove_C02, "C14": prove_C14, "C09": prove_C09, "C10": prove_C10, "C11": prove_C11, "C12": prove_C12, "C13": prove_C13}
-CHECK = {"C03": check_C03, "C06": check_C06, "C08": check_C08, "C15": check_C15, "C02": check_C02, "C14": check_C14, "C09": check_C09, "C10": check_C10, "C11": check_C11, "C12": check_C12, "C13": check_C13}
+PROVE = {"C01": prove_C01, "C04": prove_C04, "C05": prove_C05, "C07": prove_C07, "C03": prove_C03, "C06": prove_C06, "C08": prove_C08, "C15": prove_C15, "C02": prove_C02, "C14": prove_C14, "C09": prove_C09, "C10": prove_C10, "C11": prove_C11, "C12": prove_C12, "C13": prove_C13}
+CHECK = {"C01": check_C01, "C04": check_C04, "C05": check_C05, "C07": check_C07, "C03": check_C03, "C06": check_C06, "C08": check_C08, "C15": check_C15, "C02": check_C02, "C14": check_C14, "C09": check_C09, "C10": check_C10, "C11": check_C11, "C12": check_C12, "C13": check_C13}
 
 
 def replay(ctx, payload):
